@@ -42,6 +42,9 @@ class GlobalStreams:
         return hi
 
     def uniform(self, low=0.0, high=1.0, size=None):
+        if size is not None:
+            from symx.stubs import SymArr
+            return SymArr([self._real(low, high) for _ in range(size if isinstance(size, int) else size[0])])
         return self._real(low, high)
 
     def rand(self, *a):
@@ -57,6 +60,8 @@ class GlobalStreams:
     def randint(self, low, high=None, size=None, **k):
         if high is None:
             low, high = 0, low
+        if size is not None:
+            return np.array([self._int(low, high - 1) for _ in range(size if isinstance(size, int) else size[0])])
         return self._int(low, high - 1)
 
     def py_randint(self, a, b):
@@ -64,8 +69,14 @@ class GlobalStreams:
 
     def choice(self, a, size=None, replace=True, p=None):
         n = a if isinstance(a, int) else len(a)
-        i = self._int(0, n - 1)
-        return i if isinstance(a, int) else a[i]
+
+        def one():
+            i = self._int(0, n - 1)
+            return i if isinstance(a, int) else a[i]
+        if size is None:
+            return one()
+        k = size if isinstance(size, int) else size[0]
+        return np.array([one() for _ in range(k)], dtype=object if not isinstance(a, int) else int)
 
     def shuffle(self, x):
         self.calls += 1
@@ -92,6 +103,8 @@ def h_noninterference(sym, kind="stopping", W=2, T=3, E=8, max_t=4, brackets=1, 
     kw = {}
     if population_size:
         kw["population_size"] = population_size
+    if kind == "pbt":
+        kw["categorical"] = True
     if brackets > 1:
         kw["brackets"] = brackets
     mf = kind not in ("fifo-random", "fifo-rea", "fifo-grid", "fifo-bo")
@@ -154,7 +167,7 @@ def obligations(tier):
         p = dict(kind=kind, W=3 if kind == "median" else 2, T=3 if kind not in ("sync", "dehb") else 4, E=E, max_t=mt, max_fail=1 if kind in ("stopping", "promotion", "sync") else 0, **extra)
         if kind == "pbt":
             # population of 4: the upper quantile holds two trials, so the clone source is a real random choice
-            p.update(W=4, T=5, E=10, population_size=4, concrete_metrics=True)
+            p.update(W=4, T=5, E=9, population_size=4, concrete_metrics=True)
         obs.append(Ob("C11.a[%s%s]" % (kind, ",B=2" if extra else ""), "props.c11:h_noninterference", p,
                       bounds=dict(T=p["T"], E=p["E"], W=p["W"], max_t=mt), goals=("end",), split=sp if kind != "pbt" else (("c4", (0, 1, 2, 3)), ("c5", (0, 1, 2, 3))), budget_s=1800, may_be_incomplete=not quick,
                       stubs=("globalrng", "fmt")))
